@@ -1490,7 +1490,7 @@ where
         if rctx.is_cancelled() {
             // Removed while the session was being established (e.g. along with its fabric):
             // nothing is to be sent any more, the subscription is dropped when `rctx` is
-            return Ok(false);
+            return Ok(RespondOutcome::Rejected);
         }
 
         if let Some(mut tx) = self.buffers.get().await {
